@@ -677,6 +677,11 @@ func (s *programState) receiveFrom(destination parser.Destination, amount *big.I
 				break
 			}
 
+			// a negative cap counts as zero
+			if cap.Sign() == -1 {
+				cap = big.NewInt(0)
+			}
+
 			err = handler(destinationClause.To, utils.MinBigInt(cap, remainingAmount))
 			if err != nil {
 				return err
